@@ -190,6 +190,10 @@ mut('c18-destroy-input-flag-revert', 'C18',
     'odl/trafos/backends/pyfftw_bindings.py',
     "    flags = [_flag_odl_to_pyfftw(planning_effort)]\n\n    # Multi-dimensional",
     "    flags = [_flag_odl_to_pyfftw(planning_effort)]\n    if must_copy_array_in:\n        flags.append('FFTW_DESTROY_INPUT')\n\n    # Multi-dimensional")
+mut('c18-inplace-plan-revert', 'C18',
+    'odl/trafos/backends/pyfftw_bindings.py',
+    "        plan_arr_out = plan_arr_in if array_out is array_in else array_out\n",
+    "        plan_arr_out = array_out\n")
 mut('c18-inverse-norm-dropped', 'C18', 'odl/trafos/fourier.py',
     "        if self.sign == '-':\n            out /= np.prod(np.take(self.domain.shape, self.axes))\n\n        return out",
     "        if self.sign == '-' and out.ndim != 3:\n            out /= np.prod(np.take(self.domain.shape, self.axes))\n\n        return out")
